@@ -99,6 +99,16 @@ def _buf8(x):           # a value obtained by operations that cancel algebraical
     return x * y + z * w
 
 
+def _buf10(x):          # 0 + b and sum([b]) are new values: writing into b afterwards does not change them, and vice versa
+    b = A.zeros(3, dtype=x)
+    b[0] = x[0] * x[1]; b[1] = x[2]; b[2] = x[1]
+    s1 = 0 + b
+    s2 = sum([b])
+    b[1] = A.sin(x[0])
+    s1[2] = x[0] * x[2]
+    return s1 * s2 + b
+
+
 def _buf9(x):           # the negative of a buffer is taken, the buffer overwritten, the negative negated again
     b = A.zeros(3, dtype=x)
     b[0] = x[0] * x[1]; b[1] = x[2]; b[2] = x[1]
@@ -219,6 +229,7 @@ def catalogue():
     add('buffer:accumulate_slot', _buf5, [(V, 'R')], ['buffer', 'overwrite'])
     add('buffer:write_into_algebraic_identity_result', _buf8, [(V, 'R')], ['buffer', 'overwrite'])
     add('buffer:negated_twice_around_overwrite', _buf9, [(V, 'R')], ['buffer', 'overwrite'])
+    add('buffer:zero_plus_value_is_a_new_value', _buf10, [(V, 'R')], ['buffer', 'overwrite'])
     add('buffer:constant_overwrites_active_entry', _buf6, [(V, 'R')], ['buffer', 'overwrite', 'const'])
     add('buffer:constant_array_overwrites_slice', _buf7, [(V, 'R')], ['buffer', 'overwrite', 'const'])
     # --- reductions
@@ -299,6 +310,21 @@ def catalogue():
     add('qr_full:Q', lambda X: A.qr_full(X)[0][:, :2], [((4, 2), 'R')], ['fact'], guard=qr_guard)       # only the first N columns are unique
     add('qr_full:R', lambda X: A.qr_full(X)[1], [((4, 2), 'R')], ['fact'], guard=qr_guard)
     add('cholesky', lambda X: A.cholesky(_spd(X)), [(M, 'R')], ['fact'])
+    # the same output of one factorization fetched more than once (helper functions unpacking the result object again)
+    def _twice_qr(X):
+        F = A.qr(_wc(X))
+        Ra = F[1]; Rb = F[1]; Qa = F[0]
+        return A.dot(Ra.T, Rb) + A.dot(Qa.T, F[0])
+    add('qr:outputs_fetched_twice', _twice_qr, [(M, 'R')], ['fact'])
+
+    def _twice_eigh(X):
+        F = A.eigh(_sym(X))
+        return A.dot(F[1] * F[0], F[1].T) + A.sum(F[0]) * F[1]
+    add('eigh:outputs_fetched_twice', _twice_eigh, [(M, 'R')], ['fact', 'eighQ'])
+    add('solve:transposed_matrix', lambda X, B: A.solve(_wc(X).T, B), [(M, 'R'), ((3, 2), 'R')], ['linalg', 'view'])
+    add('solve:transposed_input', lambda X, B: A.solve((X + 3.0 * _I(3)).T, B), [(M, 'unit'), ((3, 2), 'R')], ['linalg', 'view'])
+    add('inv:of_transpose', lambda X: A.inv(_wc(X).T), [(M, 'R')], ['linalg', 'view'])
+    add('solve:transposed_matrix_one_input', lambda X: A.solve(_wc(X).T, X[:, :2] * 1.5), [(M, 'R')], ['linalg', 'view'])
     add('lu:L', lambda X: A.lu(_wc(X))[1], [(M, 'R')], ['fact'])
     add('lu:U', lambda X: A.lu(_wc(X))[2], [(M, 'R')], ['fact'])
     add('lu:LU:pivoting', lambda X: _lu_both(A.lu(_wc(X)[::-1])), [(M, 'R')], ['fact', 'pivot'])
